@@ -353,6 +353,33 @@ m("C07-isqualified-loose", "C07", [(PARSER,
   "\t_, _, _, err := ParseQualifiedName(device)\n\treturn err == nil",
   "\tvendor, class, name := ParseDevice(device)\n\treturn vendor != \"\" && class != \"\" && name != \"\"")], "IsQualifiedName no longer validates the parts")
 
+# ---------------------------------------------------------------- C08
+m("C08-revert-D3-validate", "C08", [(EDITS,
+  "\t\tif d == nil {\n\t\t\treturn errors.New(\"invalid (nil) device node\")\n\t\t}\n", "")], "revert of fix D3 (device nodes): null entry dereferenced by DeviceNode.Validate")
+m("C08-revert-D3-version", "C08", [(VERSION,
+  "\t\t\tif m != nil && m.Type != \"\" {", "\t\t\tif m.Type != \"\" {")], "revert of fix D3 in requiresV040: null mount dereferenced before validation")
+m("C08-revert-D5", "C08", [(PARSER,
+  "\t\treturn fmt.Errorf(\"%q, should start with letter\", name)\n\t}\n\tif len(name) == 1 {\n\t\treturn nil\n\t}\n",
+  "\t\treturn fmt.Errorf(\"%q, should start with letter\", name)\n\t}\n")], "revert of fix D5")
+m("C08-annotationkey-index", "C08", [(ANNOT,
+  "\tif len(name) > 2 {\n\t\tfor _, c := range name[1 : len(name)-1] {",
+  "\tif len(name) > 0 {\n\t\tfor _, c := range name[2 : len(name)-1] {")], "AnnotationKey slices name[2:len-1] for short names")
+m("C08-update-nil-map", "C08", [(ANNOT,
+  "\tif annotations == nil {\n\t\tannotations = make(map[string]string)\n\t}\n", "")], "UpdateAnnotations writes into a nil map")
+m("C08-validator-nocheck", "C08", [(SPEC,
+  "\tif specValidator == nil {\n\t\treturn nil\n\t}\n", "")], "validateSpec calls through a nil validator")
+m("C08-type-assert", "C08", [("internal/validation/validate.go",
+  "\t\t\tif s, ok := v.(string); ok {\n\t\t\t\tannotations[k] = s\n\t\t\t} else {\n\t\t\t\treturn fmt.Errorf(\"invalid annotation %v.%v; %v is not a string\", name, k, any)\n\t\t\t}",
+  "\t\t\tif k == \"\" {\n\t\t\t\treturn fmt.Errorf(\"invalid annotation %v.%v; %v is not a string\", name, k, any)\n\t\t\t}\n\t\t\tannotations[k] = v.(string)")], "non-string annotation value panics the schema content check")
+m("C08-readspec-nil-doc", "C08", [(SPEC,
+  "\tif raw == nil {\n\t\treturn nil, fmt.Errorf(\"failed to parse CDI Spec %q, no Spec data\", path)\n\t}\n", "")], "an empty/null document reaches newSpec as a nil pointer")
+m("C08-rdt-unguarded", "C08", [(EDITS,
+  "\tif e.IntelRdt != nil {\n\t\tif err := (&IntelRdt{e.IntelRdt}).Validate(); err != nil {\n\t\t\treturn err\n\t\t}\n\t}",
+  "\tif err := (&IntelRdt{e.IntelRdt}).Validate(); err != nil {\n\t\treturn err\n\t}")], "IntelRdt validated (dereferenced) even when absent")
+m("C08-spin-on-errors", "C08", [(CACHE,
+  "\tfor {\n\t\tselect {\n\t\tcase event, ok := <-watch.Events:",
+  "\tfor {\n\t\tselect {\n\t\tdefault:\n\t\t\tcontinue\n\t\tcase event, ok := <-watch.Events:")], "the watcher's loop no longer blocks: busy spin")
+
 
 def emit():
     os.makedirs(os.path.join(VERIF, "mutants"), exist_ok=True)
